@@ -19,13 +19,14 @@ LEVEL = "model_checking"
 RULE = ("explicit-state search over operation histories (E3): a state is the history that reaches it, rebuilt on a fresh virtual "
         "loop by replaying the real LAN object against the reference V3 device. Events: send answered promptly / device silent / "
         "error packet / peer close / handshake unanswered / connect refused, explicit authenticate with good or unknown credentials, unanswered or with the connect refused, "
-        "clock jump past the 12 h authentication lifetime, clock jumps past (and of 0.6x, and of 24 h + 10 s) the configured connection lifetime, cancellation of a "
+        "clock jump past the 12 h authentication lifetime and of 7 h (two of them exceed it), clock jumps past (and of 0.6x, and of 24 h + 10 s) the configured connection lifetime, cancellation of a "
         "send and of an explicit authenticate at every interval between loop events. (a) full history tree without de-duplication to depth D1; (b) breadth-first "
         "search with de-duplication on a name-agnostic structural fingerprint of the library objects + device state to depth D2. "
         "A wire monitor (I1 only handshakes with the token before an accepted handshake; I2 data verifies under the session key of "
         "the latest accepted handshake and carries the device id; I3 counters +1 per connection; I4 re-handshake after expiry, new "
         "connection after lifetime; I5 only ProtocolError/TimeoutError/CancelledError escape) is evaluated on the complete "
-        "device-side log of every state. Plus one session of >4096 (quick) / >65536 (thorough) sends on one connection.")
+        "device-side log of every state. Plus one session of >4096 (quick) / >65536 (thorough) sends on one connection (quick: topped up to "
+        ">65536 packets by back-to-back writes), followed by the 12 h expiry and a renewal handshake on that connection.")
 ASSUMPTIONS = ["operations do not overlap; in-flight bytes are delivered before the next operation starts",
                "the reference device keeps the session key of the latest accepted handshake and answers unknown tokens with an error packet",
                "de-duplication abstracts integers >= 2 (packet counters) to '2+'; counter behaviour itself is covered by the long session",
@@ -38,7 +39,7 @@ WRAPS = tuple(1 << k for k in range(8, 17))
 BASE_EVENTS = [
     ("send", "ok"), ("send", "silent"), ("send", "error"), ("send", "close"), ("send", "hs-silent"), ("send", "refuse"),
     ("auth", "good"), ("auth", "bad"), ("auth", "hs-silent"), ("auth", "refuse"),
-    ("jump", "12h"), ("jump", "life"), ("jump", "part"), ("jump", "day"),
+    ("jump", "12h"), ("jump", "life"), ("jump", "part"), ("jump", "day"), ("jump", "7h"),
 ]
 
 
@@ -68,7 +69,8 @@ TOKEN, KEY = None, None
 
 
 def creds():
-    return filler("c07/tok", 64), filler("c07/key", 32)
+    # first / last bytes are ASCII white space: credentials are opaque bytes, not text
+    return b"\x20" + filler("c07/tok", 62) + b"\x0a", b"\x09" + filler("c07/key", 30) + b"\x0d"
 
 
 class Run:
@@ -126,7 +128,7 @@ class Run:
         res = None
         if kind == "jump":
             # "day": one whole day and a few seconds (a multiple of 24 h plus less than the lifetime)
-            w.loop.jump({"12h": 13 * 3600, "life": LIFETIME + 1, "part": LIFETIME * 0.6, "day": 86400 + 10}[arg])
+            w.loop.jump({"12h": 13 * 3600, "life": LIFETIME + 1, "part": LIFETIME * 0.6, "day": 86400 + 10, "7h": 7 * 3600}[arg])
             mark["outcome"] = "jumped"
             return
         self.cur = arg if arg not in ("ok", "good", "bad", "cancel", "cancel-auth") else None
@@ -233,6 +235,18 @@ def monitor(run: Run):
             if e["t"] - opened[e["conn"]] > LIFETIME + 1e-6:
                 out.append(("I4 packet written on a connection past its lifetime", f"conn {e['conn']} age {e['t'] - opened[e['conn']]:.1f}s"))
                 break
+    # I4 (general form, authentication): the first data packet of an operation is never written under a handshake that
+    # succeeded more than 12 h earlier (however the 12 h were accumulated)
+    for m in run.marks:
+        if m["ev"][0] == "jump" or m["rx_from"] >= m.get("rx_to", len(dev.rx)):
+            continue
+        e = dev.rx[m["rx_from"]]
+        if e.get("ptype") != rc.T_ENC_REQ:
+            continue
+        hs = [x for x in dev.rx[:m["rx_from"]] if x["conn"] == e["conn"] and x.get("ptype") == rc.T_HANDSHAKE_REQ and x["ok"] and not x.get("lost")]
+        if hs and e["t"] - hs[-1]["t"] > 12 * 3600 + 5:
+            out.append(("I4 data written under an authentication older than 12 h", f"conn {e['conn']} age {(e['t'] - hs[-1]['t']) / 3600:.1f} h"))
+            break
     # raw bytes that the device could not even frame
     for c in run.w.net.conns:
         if c.state.get("buf"):
@@ -297,7 +311,9 @@ def fp(obj, now: datetime, depth=0, seen=None):
     if isinstance(obj, datetime):
         # remaining time matters for what a further (partial) clock jump does: bucket it on the lifetime scale
         r = (obj - now).total_seconds()
-        return "past" if r <= 0 else ("in<%d" % (int(r // (LIFETIME * 0.2)) + 1)) if r <= LIFETIME else "far"
+        # ... and on the scale of the 7 h / 12 h jumps (whether one more 7 h jump crosses it)
+        return ("past" if r <= 0 else ("in<%d" % (int(r // (LIFETIME * 0.2)) + 1)) if r <= LIFETIME else
+                "in<7h" if r <= 7 * 3600 else "in<12h" if r <= 12 * 3600 + 5 else "far")
     if isinstance(obj, timedelta):
         return obj.total_seconds()
     if isinstance(obj, SimTcp):
@@ -323,8 +339,11 @@ def fingerprint(run: Run):
     if live is not None:
         c = run.w.net.conns[live]
         age = run.w.now() - c.opened_at
+        hs = [x["t"] for x in run.dev.rx if x["conn"] == live and x.get("ptype") == rc.T_HANDSHAKE_REQ and x["ok"] and not x.get("lost")]
+        hs_age = (run.w.now() - hs[-1]) if hs else -1.0
         devside = (c.state.get("session_key") is not None, min(c.state.get("accepted", 0), 2),
-                   min(int(age // (LIFETIME * 0.2)), 6))      # how old the live connection really is
+                   min(int(age // (LIFETIME * 0.2)), 6),      # how old the live connection really is
+                   -1 if hs_age < 0 else min(int(hs_age // (3.5 * 3600)), 4))   # ... and its latest accepted handshake
     return (fp(run.lan, now), devside, run.life)
 
 
@@ -337,7 +356,7 @@ def menu(hist, run_with_trace: Run):
             continue
         if ev in (("jump", "life"), ("jump", "part")) and not run_with_trace.life:
             continue
-        if ev[0] == "jump" and ev[1] != "part" and hist and hist[-1][0] == "jump" and hist[-1] == ev:
+        if ev[0] == "jump" and ev[1] not in ("part", "7h") and hist and hist[-1][0] == "jump" and hist[-1] == ev:
             continue
         evs.append(ev)
     if authed_once:
@@ -449,6 +468,13 @@ def run_long(st: Stats, n):
             r = await lan.send(CMD)
             if len(r) != 1:
                 return i, r
+        if n < 66000:
+            # push the connection's packet counter past 2^16 the cheap way (packets written back to back, answers not awaited)
+            dev.on_enc_request = lambda conn, p, entry: None
+            for i in range(66000 - n):
+                lan._protocol.write(CMD)
+            dev.on_enc_request = None
+            await asyncio.sleep(0.05)
         # the authentication lifetime lapses on this long-lived connection: renewal handshake, then more data
         w.loop.jump(13 * 3600)
         for i in range(5):
